@@ -1,3 +1,6 @@
+import SleapVerif.Model.Eval
+import Mathlib.Tactic.Ring
+import Mathlib.Algebra.Order.Field.Basic
 import SleapVerif.Gen.TranslatedC16
 
 /-!
@@ -16,6 +19,9 @@ the C16 theorems are applied: `perfect_AP` needs a non-empty recall grid inside 
 `AP_antitone_in_threshold` / `recall_antitone` turn into "AP and AR are non-increasing along the
 table" because the match grid is strictly increasing.
 -/
+
+set_option linter.unusedTactic false
+set_option linter.unreachableTactic false
 
 namespace SleapVerif.TranslatedC16
 open SleapVerif.Gen.TranslatedC16
@@ -56,5 +62,13 @@ theorem gen_match_thresholds_increasing :
 theorem gen_recall_thresholds_increasing : voc_metrics_recall_thresholds.Pairwise (· < ·) := by
   rw [gen_recall_thresholds_eq]
   decide +kernel
+
+/-- `compute_dists` (batch 3): the per-node entry is the model's `Eval.dist` on visible points —
+`‖pr − gt‖`, prediction minus ground truth, both coordinates -/
+theorem gen_compute_dists_node_eq_model {R : Type} [Field R] [LinearOrder R] [IsStrictOrderedRing R]
+    (sqrt : R → R) (gx gy px py : R) :
+    SleapVerif.Eval.dist sqrt (some gx, some gy) (some px, some py) =
+      some (compute_dists_node sqrt gx gy px py) := by
+  simp only [SleapVerif.Eval.dist, compute_dists_node] <;> (first | rfl | ring_nf)
 
 end SleapVerif.TranslatedC16
